@@ -404,3 +404,368 @@ def rand_array(rng):
     return {'lengths': lengths, 'width': 2 if rng.random() < 0.3 else 0,
             'dtype': 'int' if rng.random() < 0.5 else 'float',
             'ctor': CTORS[int(rng.integers(0, 4))]}
+
+
+# ----------------------------------------------------------------------------------------------
+# known-finding classes (input classes of the unchanged code; see known_findings.d/C05.json)
+
+K_ROWSTEP = 'getitem-2d-row-slice-negative-step'
+K_ROWOOR = 'getitem-2d-row-slice-bound-out-of-range'
+K_COLSTART = 'getitem-2d-col-slice-negative-start'
+K_COLSTEP = 'getitem-2d-col-slice-negative-step'
+K_NOROWS = 'getitem-2d-no-rows-selected'
+K_EMPTYROW = 'getitem-2d-col-slice-empties-a-row'
+K_EMPTYLIST = 'getitem-2d-empty-index-list-or-all-false-mask'
+K_RECT = 'rect-fastpath-multidim-cells'
+
+
+def is_fast(arr):
+    L = arr['lengths']
+    return arr['ctor'] == 'flat-lengths-array' and all(x == L[0] for x in L)
+
+
+def result_fast(idx, mresp):
+    """the returned RaggedArray is built from ndarray lengths that are all equal (lengths as the code
+    computes them = the model's answer)"""
+    if idx is None or idx['t'] != 'tuple' or mresp is None:
+        return False
+    r, c = idx['r'], idx['c']
+    if c['t'] != 'slice' or r['t'] == 'int':
+        return False
+    v = mresp.get('ok')
+    if not isinstance(v, dict) or v.get('k') != 'rows':
+        return False
+    lens = v['lengths']
+    return len(lens) > 0 and all(x == lens[0] for x in lens)
+
+
+def rect_class(arr, op, idx, mresp):
+    """reads that go through a row view built by reshape(-1, L) of multi-dimensional cells"""
+    if arr['width'] == 0:
+        return False
+    if is_fast(arr):
+        if op in ('iter', 'attrs'):
+            return True
+        if op == 'get':
+            t = idx['t']
+            if t in ('int', 'slice', 'list', 'arr'):
+                return True
+            if t == 'tuple' and idx['r']['t'] == 'int' and idx['c']['t'] == 'slice':
+                return True
+    return op == 'get' and result_fast(idx, mresp)
+
+
+def finding_keys(arr, op, idx, mresp=None):
+    """all known-finding classes the input belongs to, in priority order"""
+    keys = []
+    if op == 'get' and idx['t'] == 'tuple':
+        n = len(arr['lengths'])
+        r, c = idx['r'], idx['c']
+        rows, _ = build_rows(arr)
+        sel = None
+        if r['t'] == 'slice':
+            a, b, s = r['v']
+            if s is not None and s < 0:
+                keys.append(K_ROWSTEP)
+            if any(v is not None and not (-n <= v <= n) for v in (a, b)):
+                keys.append(K_ROWOOR)
+            sel = rows[slice(a, b, s)]
+        elif r['t'] in ('list', 'arr'):
+            try:
+                sel = [rows[i] for i in r['v']]
+            except IndexError:
+                sel = None
+        if c['t'] == 'slice' and r['t'] != 'int':
+            a, b, s = c['v']
+            if a is not None and a < 0:
+                keys.append(K_COLSTART)
+            if s is not None and s < 0:
+                keys.append(K_COLSTEP)
+        if sel is not None and len(sel) == 0 and (r['t'] == 'slice' or c['t'] == 'slice'):
+            keys.append(K_NOROWS)
+        if sel is not None and c['t'] == 'slice' and any(len(x[slice(*c['v'])]) == 0 for x in sel):
+            keys.append(K_EMPTYROW)
+        if (c['t'] in ('list', 'arr') and len(c['v']) == 0) or (r['t'] in ('list', 'arr') and len(r['v']) == 0):
+            keys.append(K_EMPTYLIST)
+    if op == 'get' and idx['t'] == 'mask' and not any(b for row in idx['v'] for b in row):
+        keys.append(K_EMPTYLIST)
+    if rect_class(arr, op, idx, mresp):
+        keys.append(K_RECT)
+    return keys
+
+
+# ----------------------------------------------------------------------------------------------
+# model side
+
+def strip(idx):
+    if idx is None:
+        return None
+    if idx['t'] == 'tuple':
+        return {'t': 'tuple', 'r': strip(idx['r']), 'c': strip(idx['c'])}
+    return {k: v for k, v in idx.items() if k != 'np'}
+
+
+def model_request(arr, op, idx):
+    return {'op': 'C05.' + op, 'lengths': arr['lengths'], 'fast': is_fast(arr),
+            'ctor': 'rows' if arr['ctor'].startswith('nested') else 'flat', 'idx': strip(idx)}
+
+
+def model_canon(arr, op, idx, resp, flat):
+    """model answer with cell ids replaced by the cell values, in the canonical form of run_impl"""
+    if 'error' in resp:
+        return {'error': resp['error']}
+    v = resp['ok']
+    if op == 'iter':
+        return {'ok': [[flat[k] for k in r] for r in v]}
+    if op == 'flatten':
+        out = [flat[k] for k in v]
+        if arr['width']:
+            out = [x for c in out for x in c]
+        return {'ok': out}
+    if op == 'where':
+        return {'ok': v}
+    if op == 'attrs':
+        w = arr['width']
+        return {'ok': {'lengths': v['lengths'], 'starts': v['starts'], 'shape': v['shape'] + ([w] if w else []),
+                       'size': v['size'] * (w or 1), 'len': v['len']}}
+    if v['k'] == 'rows':
+        return {'ok': [[flat[k] for k in r] for r in v['v']]}
+    out = [flat[k] for k in v['v']]
+    if expected_kind(idx) == 'cell' and len(out) == 1:
+        return {'ok': out[0]}
+    return {'ok': out}
+
+
+class Impl:
+    """one real RaggedArray, reused for many reads; every read is followed by a no-modification check"""
+
+    def __init__(self, arr):
+        self.arr = arr
+        self.rows, self.flat = build_rows(arr)
+        self.cellshape = tuple(self.rows[0].shape[1:])
+        try:
+            self.a = build_ra(arr)
+            self.snap = self._snap()
+            self.ctor_error = None
+        except Exception as e:  # noqa
+            self.a = None
+            self.ctor_error = {'error': err_kind(e), 'exc': type(e).__name__}
+
+    def _snap(self):
+        a = self.a
+        return (a._data.tobytes(), a.lengths.tobytes(), repr([np.asarray(r).tolist() for r in a._array]))
+
+    def run(self, op, idx):
+        from enspara import ra
+        if self.ctor_error:
+            return dict(self.ctor_error)
+        a = self.a
+        try:
+            if op == 'iter':
+                res = ('ok', [np.asarray(x).tolist() for x in a])
+            elif op == 'flatten':
+                res = ('ok', np.asarray(a.flatten()).tolist())
+            elif op == 'attrs':
+                sh = a.shape
+                res = ('ok', {'lengths': [int(x) for x in a.lengths], 'starts': [int(x) for x in a.starts],
+                              'shape': [None if x is None else int(x) for x in sh], 'size': int(a.size),
+                              'dtype': str(a.dtype), 'len': len(a)})
+            elif op == 'where':
+                w = ra.where(build_mask(self.arr, idx['v']))
+                if len(w) == 2:
+                    res = ('ok', [[int(x) for x in w[0]], [int(x) for x in w[1]]])
+                else:
+                    res = ('bad', 'where returned %d arrays' % len(w))
+            else:
+                mask = build_mask(self.arr, idx['v']) if idx['t'] == 'mask' else None
+                pyidx = py_index(idx, mask)
+                before = _idx_bytes(pyidx)
+                out = a[pyidx]
+                if _idx_bytes(pyidx) != before:
+                    res = ('bad', 'the read modified the index object')
+                else:
+                    res = canon_impl(expected_kind(idx), out, self.cellshape)
+        except Exception as e:  # noqa
+            res = None
+            err = {'error': err_kind(e), 'exc': type(e).__name__}
+        if self._snap() != self.snap:
+            return {'bad': 'the read modified the array'}
+        if res is None:
+            return err
+        return {res[0]: res[1]}
+
+
+def _idx_bytes(x):
+    if isinstance(x, tuple):
+        return tuple(_idx_bytes(y) for y in x)
+    if isinstance(x, np.ndarray):
+        return x.tobytes()
+    if hasattr(x, '_data'):
+        return x._data.tobytes()
+    return repr(x)
+
+
+def run_oracle_rows(rows, op, idx):
+    try:
+        kind, val = oracle(rows, op, idx)
+    except IndexError:
+        return {'error': 'index-error'}
+    return {'ok': canon_expected(kind, val)}
+
+
+def idx_tags(op, idx):
+    if op != 'get':
+        return ['op=' + op]
+    t = idx['t']
+    if t != 'tuple':
+        return ['get[%s]' % t]
+    tags = ['get[%s,%s]' % (idx['r']['t'], idx['c']['t'])]
+    for nm, p in (('row', idx['r']), ('col', idx['c'])):
+        if p['t'] == 'slice':
+            a, b, s = p['v']
+            if s is not None and s < 0:
+                tags.append(nm + '-step<0')
+            if (a is not None and a < 0) or (b is not None and b < 0):
+                tags.append(nm + '-negative-bound')
+        elif p['t'] == 'int' and p['v'] < 0:
+            tags.append(nm + '-negative-int')
+    return tags
+
+
+def judge(ctx, impl, op, idx, mresp, record=True):
+    """evaluate the predicate on the real output, then compare the model with the real output"""
+    arr = impl.arr
+    o = run_oracle_rows(impl.rows, op, idx)
+    i = impl.run(op, idx)
+    if op == 'attrs' and 'ok' in i:
+        # dtype is compared with the oracle only (cells are abstract in the model)
+        dt = i['ok'].pop('dtype')
+        odt = o['ok'].pop('dtype')
+        if dt != odt:
+            ctx.violation('dtype attribute %s != dtype of the rows %s' % (dt, odt), {'arr': arr, 'op': op, 'idx': idx})
+    elif op == 'attrs':
+        o['ok'].pop('dtype')
+    case = {'arr': arr, 'op': op, 'idx': idx}
+    keys = finding_keys(arr, op, idx, mresp)
+    if 'error' in o:
+        holds = 'error' in i
+    else:
+        holds = 'ok' in i and i['ok'] == o['ok']
+    if record:
+        nontrivial = 'ok' in o and o['ok'] not in ([], None)
+        tags = idx_tags(op, idx) + ['width=%d' % arr['width'], 'ctor=' + arr['ctor'], 'dtype=' + arr['dtype'],
+                                    'rows=%d' % len(arr['lengths']),
+                                    'equal-lengths' if len(set(arr['lengths'])) == 1 else 'unequal-lengths',
+                                    'expect-error' if 'error' in o else 'expect-value']
+        if 'error' in i:
+            tags.append('impl-' + i['error'])
+        for k in keys:
+            tags.append('class:' + k)
+        ctx.case(case, nontrivial=nontrivial, tags=tags)
+    else:
+        ctx.evaluations += 1
+    if not holds:
+        if 'error' in o:
+            what = 'access outside a row/array returned %r instead of raising' % (i,)
+        else:
+            what = 'read differs from the same read on the list of rows: got %r, expected %r' % (i, o['ok'])
+        ctx.violation(what[:600], dict(case, got=i, expected=o), key=keys[0] if keys else None)
+    # correspondence with the model (cells are atomic in the model: skip the multi-dimensional
+    # rectangular fast path, where numpy's reshape cuts cells apart)
+    if K_RECT in keys:
+        ctx.skip('model comparison skipped: ' + K_RECT)
+        return
+    m = model_canon(arr, op, idx, mresp, impl.flat)
+    ii = {k: v for k, v in i.items() if k != 'exc'}
+    if m != ii:
+        if holds or keys:
+            ctx.disagreement('Model.Ragged vs RaggedArray (%s)' % op, dict(case, model=m, impl=i))
+        # a violation outside the known classes has already been reported
+
+
+def slice_scope(ctx):
+    reqs, exp = [], []
+    vals = [None] + list(range(-8, 9))
+    for n in range(0, 7):
+        for a, b, c in itertools.product(vals, vals, STEPS):
+            reqs.append({'op': 'C05.slice', 'len': n, 'v': [a, b, c]})
+            exp.append(list(range(*slice(a, b, c).indices(n))))
+    resp = ctx.driver(reqs)
+    bad = 0
+    for rq, e, r in zip(reqs, exp, resp):
+        if r.get('ok') != e:
+            bad += 1
+            if bad <= 3:
+                ctx.disagreement('Model.PySlice.indices vs CPython slice.indices', dict(rq, model=r, cpython=e))
+    ctx.tag('slice-scope', len(reqs))
+    ctx.evaluations += len(reqs)
+    ctx.note('slice_scope_exhaustive', {'n_max': 6, 'cases': len(reqs), 'mismatches': bad})
+
+
+def run_batch(ctx, batch, record=True):
+    """batch: list of (arr, [(op, idx), …])"""
+    reqs = [model_request(arr, op, idx) for arr, cases in batch for op, idx in cases]
+    resp = ctx.driver(reqs)
+    k = 0
+    for arr, cases in batch:
+        impl = Impl(arr)
+        for op, idx in cases:
+            judge(ctx, impl, op, idx, resp[k], record=record)
+            k += 1
+
+
+FIXED_OPS = [('iter', None), ('flatten', None), ('attrs', None)]
+
+
+def run(ctx):
+    rng = ctx.rng
+    slice_scope(ctx)
+    # random arrays x random index expressions
+    batch = []
+    for _ in range(ctx.n(1500, 30000)):
+        arr = rand_array(rng)
+        cases = list(FIXED_OPS)
+        cases.append(('where', {'t': 'mask', 'v': rand_mask(rng, arr['lengths'])}))
+        for _ in range(8):
+            cases.append(('get', rand_index(rng, arr['lengths'])))
+        batch.append((arr, cases))
+        if len(batch) >= 2000:
+            run_batch(ctx, batch)
+            batch = []
+    run_batch(ctx, batch)
+    # exhaustive small scope
+    maxtot = ctx.n(3, 6)
+    variants = [(w, d, c) for w in (0, 2) for d in ('int', 'float') for c in CTORS]
+    k = int(rng.integers(0, len(variants)))
+    nex = 0
+    for total in range(1, maxtot + 1):
+        for lengths in comps(total):
+            w, d, c = variants[k % len(variants)]
+            k += 5
+            # the slice arithmetic does not depend on the variant: one full enumeration per lengths
+            # vector, rotating the variant; the 1-D cell / ndarray-lengths variant every time for size <= 4
+            todo = [{'lengths': lengths, 'width': w, 'dtype': d, 'ctor': c}]
+            if total <= 4 and (w, c) != (0, 'flat-lengths-array'):
+                todo.append({'lengths': lengths, 'width': 0, 'dtype': 'int', 'ctor': 'flat-lengths-array'})
+            for arr in todo:
+                cases = [('get', i) for i in exhaustive_indices(lengths)]
+                cases += [('get', {'t': 'mask', 'v': m}) for m in all_masks(lengths)]
+                cases += [('where', {'t': 'mask', 'v': m}) for m in all_masks(lengths)]
+                cases += FIXED_OPS
+                nex += len(cases)
+                for j in range(0, len(cases), 20000):
+                    run_batch(ctx, [(arr, cases[j:j + 20000])], record=(total <= 3))
+    ctx.tag('exhaustive-small-scope', nex)
+    ctx.note('exhaustive_scope', {'total_size_max': maxtot, 'cases': nex})
+
+
+def replay(ctx, data):
+    if data.get('op') == 'C05.slice':
+        r = ctx.driver([{k: data[k] for k in ('op', 'len', 'v')}])[0]
+        e = list(range(*slice(*data['v']).indices(data['len'])))
+        if r.get('ok') != e:
+            ctx.disagreement('Model.PySlice.indices vs CPython slice.indices', data)
+        return
+    arr, op, idx = data['arr'], data['op'], data.get('idx')
+    resp = ctx.driver([model_request(arr, op, idx)])[0]
+    judge(ctx, Impl(arr), op, idx, resp)
